@@ -113,6 +113,7 @@ func (r *Value) Pull(ctx context.Context, opts ...ReadOption) <-chan *ValueChang
 			case typedEvents <- change:
 			}
 		}
+		verifAt("fwd.seeded", typedEvents)
 
 		last := currentValue
 		for event := range on {
